@@ -33,8 +33,9 @@ META = dict(
          'from get_entire_workflow() and applies every published delta in '
          'order with the real apply_delta. At a symbolic main-loop pass one '
          'command arrives: hold, release, n-window resize to 0 or 2, remove, '
-         'trigger, set outputs, or a reload (initiate_data_model(reloaded), '
-         'TaskPool.reload, apply_task_proxy_db_history). After every '
+         'trigger, set outputs, a reload (initiate_data_model(reloaded), '
+         'TaskPool.reload, apply_task_proxy_db_history), or job-preparation '
+         'failures (waiting -> preparing -> waiting within one pass). After every '
          'update_data_structure z3 decides on every path that every pooled '
          'task appears in the store with the same status, held / queued / '
          'runahead flags, flow numbers, completed outputs and prerequisite '
@@ -54,7 +55,7 @@ META = dict(
                'get_entire_workflow', 'set_graph_window_extent / '
                'window_resize_rewalk', 'apply_task_proxy_db_history'],
     bounds=['fixture run2 (two cycle points, 10 instances), 4 order choices '
-            'of 3 alternatives, x bit, 9 command kinds at pass 0..5'],
+            'of 3 alternatives, x bit, 10 command kinds at pass 0..5'],
     stubs=['job preparation / submission / messages played by vf.sim.Sim',
            'broadcast_mgr', 'proc_pool', 'scheduler stand-in (status fields)'],
     assumptions=['the client clears an element type when a delta carries the '
@@ -174,6 +175,11 @@ def command(sim, kind, client):
         asyncio.run(go())
     elif kind == 7:
         pool.set_prereqs_and_outputs({TaskTokens('2', 'd')}, [], [], [])
+    elif kind == 9:
+        # the next submission of these fails during job preparation: with
+        # submission retries configured the task goes waiting -> preparing
+        # -> waiting inside one main-loop pass
+        sim.submit_fail |= {'1/a', '2/a', '1/d', '2/d'}
     elif kind == 8:
         # commands.reload_workflow, the data-store part
         new = newcfg()
@@ -229,7 +235,7 @@ def run(c1: int, c2: int, c3: int, c4: int, x1: bool, kind: int,
     """
     pre: sl(kind=kind)
     pre: 0 <= c1 <= 2 and 0 <= c2 <= 2 and 0 <= c3 <= 2 and 0 <= c4 <= 2
-    pre: 0 <= kind <= 8 and 0 <= at <= 5
+    pre: 0 <= kind <= 9 and 0 <= at <= 5
     pre: kind != 0 or at == 0
     pre: SLICE.get('full', True) or (c4 == 0 and at in (0, 2, 4))
     pre: not kf('C25.run', kind=kind, at=at, x1=x1)
@@ -237,7 +243,7 @@ def run(c1: int, c2: int, c3: int, c4: int, x1: bool, kind: int,
     """
     cs = [fork_int(c, 0, 2) for c in (c1, c2, c3, c4)]
     x1 = fork_bool(x1)
-    kind, at = fork_int(kind, 0, 8), fork_int(at, 0, 5)
+    kind, at = fork_int(kind, 0, 9), fork_int(at, 0, 5)
     with concrete():
         return _run(cs, x1, kind, at)
 
@@ -246,7 +252,7 @@ def OBLIGATIONS(tier):
     big = tier == 'thorough'
     t = 2400 if big else 170
     return [Ob(f'run[command={k}]', 'run', timeout=t, twin=(k == 0),
-               slice={'kind': k, 'full': big}) for k in range(9)]
+               slice={'kind': k, 'full': big}) for k in range(10)]
 
 
 def VALIDATE():
